@@ -13,7 +13,8 @@ state with the *exact* number of objects the control state still refers to means
 release of an object the state no longer refers to would break the equation), nothing is forgotten.
 For ALL programs, ALL drop points (dropFuture / droptask / detach anywhere in the event list), ALL stop points (`cfg`) and
 ALL event orders.  Guards: well-formed programs (`wfProg`: a Run/Schedule source built by a functor has its head functor —
-the C++ type system guarantees it), and no crash (D10, see C02).
+the C++ type system guarantees it).  (Until fix 4f7ebfc of /repo the theorems also carried `crashed = false`: defect D10,
+see C02; now no reachable state is a crash: `run_not_crashed`.)
 -/
 import YaclibModel.Proofs.PipelineAcct5
 import YaclibModel.Proofs.PipelineSpec
@@ -36,9 +37,10 @@ def owned (st : State) : Nat × Nat :=
 
 /-- **no_uaf_Pipeline / no_double_free_Pipeline — exact ownership in every reachable state**:
     allocated = released + exactly the objects the suspended pipeline (or the handle) still refers to -/
-theorem exact_ownership (hc : client evs = some (p, h)) (hw : wfProg p = true) (hcr : (run cfg {} evs).crashed = false) :
+theorem exact_ownership (hc : client evs = some (p, h)) (hw : wfProg p = true) :
     (run cfg {} evs).g.cAlloc = (run cfg {} evs).g.cFree + (owned (run cfg {} evs)).1 ∧
     (run cfg {} evs).g.fAlloc = (run cfg {} evs).g.fFree + (owned (run cfg {} evs)).2 := by
+  have hcr := run_not_crashed cfg evs
   have hi := ainv_run cfg evs
   rw [hc] at hi
   cases hi hw with
@@ -53,22 +55,20 @@ theorem exact_ownership (hc : client evs = some (p, h)) (hw : wfProg p = true) (
     | gone => rw [hctl] at hi; simpa [Bal, cnt] using hi.2
 
 /-- never more releases than allocations (no double free), in every reachable state -/
-theorem no_double_free_Pipeline (hc : client evs = some (p, h)) (hw : wfProg p = true)
-    (hcr : (run cfg {} evs).crashed = false) :
+theorem no_double_free_Pipeline (hc : client evs = some (p, h)) (hw : wfProg p = true) :
     (run cfg {} evs).g.cFree ≤ (run cfg {} evs).g.cAlloc ∧ (run cfg {} evs).g.fFree ≤ (run cfg {} evs).g.fAlloc := by
-  have := exact_ownership cfg evs p h hc hw hcr
+  have := exact_ownership cfg evs p h hc hw
   omega
 
 /-- **quiescent_all_freed_Pipeline**: in every terminal state — the pipeline finished and nothing holds it (`gone`: the
     future was dropped / consumed by Get / detached / the Task cancelled, at ANY point of the history) — liveCores = 0 and
     liveFunctors = 0; with a completed Future still held: exactly its result core, no functor -/
-theorem quiescent_all_freed_Pipeline (hc : client evs = some (p, h)) (hw : wfProg p = true)
-    (hcr : (run cfg {} evs).crashed = false) :
+theorem quiescent_all_freed_Pipeline (hc : client evs = some (p, h)) (hw : wfProg p = true) :
     ((run cfg {} evs).ctl = .gone →
       (run cfg {} evs).g.cAlloc = (run cfg {} evs).g.cFree ∧ (run cfg {} evs).g.fAlloc = (run cfg {} evs).g.fFree) ∧
     (∀ r inh, (run cfg {} evs).ctl = .future r inh →
       (run cfg {} evs).g.cAlloc = (run cfg {} evs).g.cFree + 1 ∧ (run cfg {} evs).g.fAlloc = (run cfg {} evs).g.fFree) := by
-  have := exact_ownership cfg evs p h hc hw hcr
+  have := exact_ownership cfg evs p h hc hw
   constructor
   · intro hg; simpa [owned, hg] using this
   · intro r inh hf; simpa [owned, hf] using this
@@ -76,9 +76,9 @@ theorem quiescent_all_freed_Pipeline (hc : client evs = some (p, h)) (hw : wfPro
 /-- a functor is destroyed when its step completes — invoked or not (skipped value callback, Dropped job, cancelled Task):
     whenever the pipeline rests with a ready future no functor is alive, whatever was invoked -/
 theorem functors_released_invoked_or_not (hc : client evs = some (p, h)) (hw : wfProg p = true)
-    (hcr : (run cfg {} evs).crashed = false) (ht : (run cfg {} evs).terminal = true) :
+    (ht : (run cfg {} evs).terminal = true) :
     (run cfg {} evs).g.fAlloc = (run cfg {} evs).g.fFree := by
-  have := exact_ownership cfg evs p h hc hw hcr
+  have := exact_ownership cfg evs p h hc hw
   cases hctl : (run cfg {} evs).ctl <;> simp_all [State.terminal, owned]
 
 /-- T1: the release conditions of the extracted tables, per kind of step: a continuation releases its predecessor exactly
